@@ -139,6 +139,12 @@ class ExprMixin:
             none = z3.Bool(fresh_name(base + "_isnone"))
         return SV(ty, t, none)
 
+    def named_array(self, st, j, body, name):
+        """an array constant a with a[j] == body for every j (lambda terms are avoided: they cannot occur in patterns)"""
+        a = z3.Const(fresh_name(name), z3.ArraySort(I, body.sort()))
+        st.assume(z3.ForAll([j], a[j] == body, patterns=[a[j]]))
+        return a
+
     def eq(self, a, b, st):
         """python == as a z3 Bool"""
         ka, kb = a.ty.kind, b.ty.kind
@@ -421,7 +427,7 @@ class ExprMixin:
         ea, eb = st.list_elems(a.ty, a.t), st.list_elems(b.ty, b.t)
         j = z3.Int(fresh_name("j"))
         r = st.new_ref()
-        st.set_list(a.ty, r, la + lb, z3.Lambda([j], z3.If(j < la, ea[j], eb[j - la])))
+        st.set_list(a.ty, r, la + lb, self.named_array(st, j, z3.If(j < la, ea[j], eb[j - la]), "cat"))
         return SV(a.ty, r)
 
     def ev_Compare(self, node, st, ctx):
@@ -602,7 +608,7 @@ class ExprMixin:
             e = st.list_elems(base.ty, base.t)
             j = z3.Int(fresh_name("j"))
             r = st.new_ref()
-            st.set_list(base.ty, r, z3.If(hi_ - lo_ < 0, 0, hi_ - lo_), z3.Lambda([j], e[j + lo_]))
+            st.set_list(base.ty, r, z3.If(hi_ - lo_ < 0, 0, hi_ - lo_), self.named_array(st, j, e[j + lo_], "slice"))
             return SV(base.ty, r)
         raise Unsupported("slice of %r" % base.ty)
 
